@@ -157,6 +157,18 @@ fn deliver_neutral(cx: &mut Cx, mut f: Presentation, verifier: NodeId, ideal: Sh
         f.json = Some(proof_json(&f.proof));
         fault = "json_codec".into();
     }
+    // the serde view produced by the library's own Serialize impl (on the verifier's peer), for
+    // every proof with nothing hidden and a sample of the others
+    let u = (f.proof.len().saturating_sub(272)) / 32;
+    if u == 0 || cx.ch.chance("via_library_json", 1, 4) {
+        let (suite, pbytes, f2, ideal2) = (f.suite, f.proof.clone(), f.clone(), ideal.clone());
+        cx.step(verifier, "serialize-proof", StepOpts::default(), move || api::proof_to_json(suite, &pbytes), move |cx, st| {
+            match st.out {
+                Ok(Ok(j)) => { let mut g = f2.clone(); g.json = Some(j); deliver(cx, verifier, g, "json_codec_library".into(), ideal2); }
+                other => cx.violation("C03", "proof/json-encode-failed".into(), format!("{other:?}")),
+            }
+        });
+    }
     deliver(cx, verifier, f.clone(), fault, ideal.clone());
     if cx.ch.chance("frame_dup", 1, 6) { deliver(cx, verifier, f, "frame_dup".into(), ideal); }
 }
